@@ -12,13 +12,15 @@ make -j16 check > _mutant/confirm_check.log 2>&1
 pass=$(grep -c '^PASS:' _mutant/confirm_check.log); fail=$(grep -c '^FAIL:' _mutant/confirm_check.log)
 echo "with patch: PASS=$pass FAIL=$fail"
 demo=_mutant/demo.c
-if [ -f $demo ]; then gcc $demo -I libyara/include -I libyara .libs/libyara.a -lcrypto -lm -lpthread -o _mutant/demo_bin 2>_mutant/demo_build.log || { echo "demo build failed"; cat _mutant/demo_build.log | head; }
+if [ -f _mutant/demo.sh ]; then timeout 600 sh _mutant/demo.sh > _mutant/demo_with.log 2>&1; rc_with=$?
+elif [ -f $demo ]; then gcc $demo -I libyara/include -I libyara .libs/libyara.a -lcrypto -lm -lpthread -o _mutant/demo_bin 2>_mutant/demo_build.log || { echo "demo build failed"; cat _mutant/demo_build.log | head; }
   timeout 120 ./_mutant/demo_bin > _mutant/demo_with.log 2>&1; rc_with=$?
 elif [ -f _mutant/demo.sh ]; then timeout 300 sh _mutant/demo.sh > _mutant/demo_with.log 2>&1; rc_with=$?; fi
 echo "demo with patch rc=$rc_with"
 git checkout -q -- libyara cli
 make -j16 > _mutant/confirm_rebuild.log 2>&1
-if [ -f $demo ]; then gcc $demo -I libyara/include -I libyara .libs/libyara.a -lcrypto -lm -lpthread -o _mutant/demo_bin 2>/dev/null
+if [ -f _mutant/demo.sh ]; then timeout 600 sh _mutant/demo.sh > _mutant/demo_without.log 2>&1; rc_without=$?
+elif [ -f $demo ]; then gcc $demo -I libyara/include -I libyara .libs/libyara.a -lcrypto -lm -lpthread -o _mutant/demo_bin 2>/dev/null
   timeout 120 ./_mutant/demo_bin > _mutant/demo_without.log 2>&1; rc_without=$?
 elif [ -f _mutant/demo.sh ]; then timeout 300 sh _mutant/demo.sh > _mutant/demo_without.log 2>&1; rc_without=$?; fi
 echo "demo without patch rc=$rc_without"
